@@ -104,7 +104,7 @@ class DelayFile:
 
         for n1, n2, *delvals in self._interconnects:
             delvals = [d if len(d) > 0 else [0, 0, 0] for d in delvals]
-            if max(max(delvals)) == 0: continue
+            if not any(any(d) for d in delvals): continue  # all values zero: nothing to annotate
             cn1, pn1 = n1.split('/') if '/' in n1 else (n1, None)
             cn2, pn2 = n2.split('/') if '/' in n2 else (n2, None)
             cn1 = cn1.replace('\\','')
